@@ -121,10 +121,27 @@ def normalize_space(s: str) -> bool:
     return ev(T['norm'], s=s) == [' '.join(out)] and ev(T1['norm'], s=s) == [' '.join(out)]
 
 
-@ob(budget=200, bound='s: string of length <= 3 over a..d; map, replacement: strings of length <= 2 over a..d', funcs=[F1 + ':translate'])
+@ob(budget=200, bound='s: string of length <= 2 over {a,b}; map string: length <= 2 over {a,b} (so a repeated map character is included); replacement: length <= 2 over {x,y}',
+    funcs=[F1 + ':translate'])
 def translate_spec(s: str, m: str, r: str) -> bool:
     """
-    pre: len(s) <= 3 and len(m) <= 2 and len(r) <= 2 and all('a' <= c <= 'd' for c in s + m + r)
+    pre: len(s) <= 2 and len(m) <= 2 and len(r) <= 2 and all('a' <= c <= 'b' for c in s + m) and all('x' <= c <= 'y' for c in r)
+    post: _
+    """
+    out = ''
+    for c in s:
+        i = m.find(c)
+        if i < 0:
+            out += c
+        elif i < len(r):
+            out += r[i]
+    return ev(T['translate'], s=s, m=m, r=r) == [out] and ev(T1['translate'], s=s, m=m, r=r) == [out]
+
+
+@ob(budget=60, tbudget=600, kind='hunt', bound='s: string of length <= 3 over a..d; map, replacement: strings of length <= 3 over a..d (bug-hunting)', funcs=[F1 + ':translate'])
+def translate_spec_wide(s: str, m: str, r: str) -> bool:
+    """
+    pre: len(s) <= 3 and len(m) <= 3 and len(r) <= 3 and all('a' <= c <= 'd' for c in s + m + r)
     post: _
     """
     out = ''
